@@ -17,7 +17,12 @@ NAMES0 = ['ka', 'kb', 'k7']
 NEWKEYS = ['kn1', 'kn2']
 
 
+NAN = float('nan')        # an object that is not equal to itself (one singleton: the stored object is always passed by identity)
+
+
 def enc(o):
+    if o is NAN:
+        return 'NAN'
     return list(o) if isinstance(o, tuple) else o
 
 
@@ -26,6 +31,8 @@ def dec(o):
     the one stored in the selector - users pass equal values, not the stored object itself."""
     if isinstance(o, list):
         return tuple(o)
+    if o == 'NAN' or o is NAN:
+        return NAN
     if isinstance(o, str) and len(o) > 1:
         return (o + ' ')[:-1]
     if isinstance(o, float):
@@ -62,6 +69,10 @@ class C18(Harness):
                 out.append({'ptype': ptype, 'style': style, 'level': 'instance', 'reuse': True})
                 if ptype == 'Selector':
                     out.append({'ptype': ptype, 'style': style, 'level': 'instance', 'with_none': True})
+                    out.append({'ptype': ptype, 'style': style, 'level': 'instance', 'with_nan': True})
+        # an open (check_on_set=False) dict-declared Selector: assigned values that are not among the objects are added without a name,
+        # so the list and the name mapping are no longer position-aligned
+        out.append({'ptype': 'Selector', 'style': 'dict', 'level': 'instance', 'open': True})
         return out
 
     def depth(self, tier, config):
@@ -97,7 +108,7 @@ class C18(Harness):
             ops.append(['replace', [enc(y) for y in (fresh[:1] + objs[:1])]])
             ops.append(['replace', []])
         else:
-            keys = list(model)
+            keys = [k for k in model if isinstance(k, str)]          # (un-named entries of an open Selector have a tuple key in the model)
             if fresh:
                 x = fresh[0]
                 for k in NEWKEYS:
@@ -160,6 +171,9 @@ class C18(Harness):
             return m, ret, True
         m = collections.OrderedDict(model)
         ret = None
+        if cfg.get('open') and kind in ('setkey', 'update', 'updatekw') and m and not any(isinstance(k, str) for k in m):
+            # no named entry left: a key assignment first names what is there (as for a list-declared Selector)
+            m = collections.OrderedDict((k[1], v) for k, v in m.items())
         if kind == 'setkey':
             m[op[1]] = dec(op[2])
         elif kind == 'update':
@@ -173,13 +187,17 @@ class C18(Harness):
             ret = m.pop(k)
         elif kind in ('remove', 'remove_same'):
             o = dec(op[1])
-            for k in [k for k, v in m.items() if v == o]:
+            for k in [k for k, v in m.items() if v is o or v == o]:
                 del m[k]
         elif kind == 'clear':
             m.clear()
         elif kind == 'replace':
             m = collections.OrderedDict((k, dec(v)) for k, v in op[1])
         elif kind == 'assign':
+            v = dec(op[1])
+            if cfg.get('open') and v not in list(m.values()):
+                m[('~', str(v))] = v          # added to the objects, un-named, at the end
+                return m, None, True
             return m, None, False
         return m, ret, True
 
@@ -189,7 +207,7 @@ class C18(Harness):
         from mc.world import reset_globals
         reset_globals()
         ptype = getattr(param, cfg['ptype'])
-        init = [None if (cfg.get('with_none') and x == 'beta') else x for x in INIT]
+        init = [None if (cfg.get('with_none') and x == 'beta') else (NAN if (cfg.get('with_nan') and x == 'beta') else x) for x in INIT]
         if cfg['style'] == 'list':
             objects = list(init)
             model = list(init)
@@ -197,7 +215,7 @@ class C18(Harness):
             objects = dict(zip(NAMES0, init))
             model = collections.OrderedDict(zip(NAMES0, init))
         default = [INIT[0]] if cfg['ptype'] == 'ListSelector' else INIT[0]
-        cls = type('S18', (param.Parameterized,), {'s': ptype(objects=objects, default=default)})
+        cls = type('S18', (param.Parameterized,), {'s': ptype(objects=objects, default=default, **({'check_on_set': False} if cfg.get('open') else {}))})
         inst = cls()
         sibling = cls()
         sibling.param.s              # has its own per-instance Parameter too
@@ -236,7 +254,7 @@ class C18(Harness):
         if kind == 'remove':
             return o.remove(dec(op[1]))
         if kind == 'remove_same':
-            stored = [x for x in p._objects if x == dec(op[1])][0]
+            stored = [x for x in p._objects if x is dec(op[1]) or x == dec(op[1])][0]
             return o.remove(stored)
         if kind == 'clear':
             return o.clear()
@@ -291,8 +309,9 @@ class C18(Harness):
             names = None
         else:
             objs = list(model.values())
-            items = list(model.items())
+            items = [(k, v) for k, v in model.items() if isinstance(k, str)]
             names = items
+        rng = items if cfg['style'] == 'list' else [(k if isinstance(k, str) else k[1], v) for k, v in model.items()]
         def bad(clause, what, exp, got):
             vs.append(V(clause, '%s: expected %r got %r (step %d op %s)' % (what, exp, got, step, opkind),
                         op=opkind, style=cfg['style'], view=what))
@@ -300,24 +319,25 @@ class C18(Harness):
             bad('view-agrees', 'list(objects)', objs, obs['list'])
         if obs['len'] != len(objs):
             bad('view-agrees', 'len(objects)', len(objs), obs['len'])
-        if obs['items'] != items:
+        judged_items = not (cfg.get('open') and not items)      # (an open Selector without any named entry left falls back to list naming)
+        if obs['items'] != items and judged_items:
             bad('view-agrees', 'objects.items()', items, obs['items'])
-        if obs['keys'] != [k for k, _ in items]:
+        if obs['keys'] != [k for k, _ in items] and judged_items:
             bad('view-agrees', 'objects.keys()', [k for k, _ in items], obs['keys'])
-        if obs['values'] != objs:
+        if obs['values'] != objs and not cfg.get('open'):
             bad('view-agrees', 'objects.values()', objs, obs['values'])
         if names is not None and obs['names'] != names:
             bad('view-agrees', 'names', names, obs['names'])
-        if obs['range'] != items:
-            bad('view-agrees', 'get_range()', items, obs['range'])
+        if obs['range'] != rng:
+            bad('view-agrees', 'get_range()', rng, obs['range'])
         # an instance-level mutation leaves the other holders of the Selector alone
         if cfg['level'] == 'instance':
             for label, holder in (('class', w['cls'].param.s), ('sibling instance', w['sibling'].param.s)):
                 if list(holder.objects) != w['init'] or (cfg['style'] == 'dict' and list(holder.names.items()) != w['init_names']):
                     vs.append(V('other-holder-changed', '%s (step %d op %s): objects/names of the %s changed to %r / %r' % (
                         'history', step, opkind, label, list(holder.objects), list(holder.names.items())), op=opkind, style=cfg['style'], holder=label))
-        # membership: every pool object is accepted iff it is in the model
-        for v in POOL + ([None] if cfg.get('with_none') else []):
+        # membership: every pool object is accepted iff it is in the model (an open Selector accepts, and adds, everything: not probed)
+        for v in [] if cfg.get('open') else POOL + ([None] if cfg.get('with_none') else []) + ([NAN] if cfg.get('with_nan') else []):
             acc = self.assign(cfg, w, v)
             exp = v in objs
             if acc == 'readback':
@@ -339,7 +359,7 @@ class C18(Harness):
                 acc = self.assign(cfg, w, dec(op[1]))
                 objs = list(model.values()) if cfg['style'] == 'dict' else list(model)
                 hits['assign-accepted' if acc else 'assign-rejected'] += 1
-                if last and acc != (dec(op[1]) in objs):
+                if last and acc != (cfg.get('open') or dec(op[1]) in objs):
                     vs.append(V('membership', 'assign %r accepted=%r objects=%r' % (op[1], acc, objs), op='assign', style=cfg['style'], accepted=acc))
             else:
                 try:
@@ -356,6 +376,10 @@ class C18(Harness):
                             vs.append(V('pop-returns-removed', '%s returned %r, removed object is %r' % (op, ret, exp_ret),
                                         op=op[0], style=cfg['style']))
                     changed = (list(new_model.items()) != list(model.items())) if cfg['style'] == 'dict' else (new_model != model)
+                    if cfg.get('open'):
+                        # the event shows the name mapping: a mutation that only touches un-named entries shows a changes-only watcher nothing new
+                        named = lambda mm: [(k, v) for k, v in mm.items() if isinstance(k, str)]
+                        changed = named(new_model) != named(model)
                     if len(w['log']) != 1 and (changed or len(w['log']) > 1):
                         vs.append(V('objects-watcher-once', '%s notified the objects watcher %d times' % (op, len(w['log'])),
                                     op=op[0], style=cfg['style'], calls=len(w['log'])))
